@@ -109,12 +109,14 @@ void model_apply(model_t *m, size_t op_index);
 int64_t msig_length(const msig_t *s);
 
 /* ---------- executors ---------- */
+struct jls_wr_s;
 enum { WR_SYNC = 0, WR_THREADED = 1 };
 typedef struct {
     int kind;
     int stop_after;        /* -1: run all; else stop (without close) after this many ops */
     int no_close;          /* leave the writer unclosed (process exits) */
     uint32_t twr_flags;
+    void (*after_op)(size_t i, struct jls_wr_s *wr);   /* synchronous writer only: called after op i returned */
 } exec_opts_t;
 /* runs program against a fresh file; fills op->rc; updates model; returns rc of open/close */
 int exec_prog(prog_t *p, model_t *m, const char *path, const exec_opts_t *o);
